@@ -15,7 +15,7 @@ import (
 )
 
 var Spec = engine.Spec{
-	ID: "C10", Run: Run, MapOrders: true, MapOrdersQuick: []int{vmap.Alternating}, QuickBud: 5 * time.Minute, ThorBud: 25 * time.Minute,
+	ID: "C10", Run: Run, MapOrders: true, MapOrdersQuick: []int{vmap.Alternating}, QuickBud: 5 * time.Minute, ThorBud: 45 * time.Minute,
 	Technique: "explicit enumeration of all ordered pairs of small node lists, ill-formed ones included; real Intersect (and Union for absorption) against set bounds; attribute cube by reflection over every Node field",
 	Rule:      "case = ordered pair of list specs or one attribute-cube point; distinct state = pair of canonical list keys",
 	Assume:    []string{"attribute rule excludes id and type", "roots/edges are bounded from both sides as the statement says; any result between the bounds is accepted"},
